@@ -313,29 +313,40 @@ Definition complete_read (e : endpoint) (k : Z) (i : nat) (p : pread) : endpoint
   let e := upd_stream e k i (fun s => set_pread s None) in
   add_event e [pr_slot p; 1; pr_want p; Z.of_nat (length data); hash_bytes data].
 
-(* one iteration of the loop of ReadStream::read_exact *)
-Definition read_iter (e : endpoint) (k : Z) (i : nat) (s : rstream) (p : pread) : option endpoint :=
-  if s_closed s then Some (complete_read e k i p) else
+(* one iteration of the loop of ReadStream::read_exact, on the stream state alone:
+   new stream state, frames dropped (their permits return), whether read_exact returned *)
+Inductive rres := RBlocked | RStep (s : rstream) (rel : list frame) (done : bool).
+
+Definition read_iter_s (s : rstream) (p : pread) : rres :=
+  if s_closed s then RStep s [] true else
   let next := match s_cache s with
               | Some f => Some (f, set_cache s None)
               | None => match s_inq s with f :: t => Some (f, set_inq s t) | [] => None end
               end in
   match next with
-  | None => None
+  | None => RBlocked
   | Some (f, s1) =>
-      if fkind f =? FK_CLOSE then Some (release (upd_stream e k i (fun _ => set_closed s1 true)) f)
+      if fkind f =? FK_CLOSE then RStep (set_closed s1 true) [f] false
       else if fkind f =? FK_DATA then
         let n := Z.to_nat (Z.min (pr_want p - pr_len p) (Z.of_nat (length (fdata f)))) in
         let got := firstn n (fdata f) in
         let rest := skipn n (fdata f) in
         let p' := mkPread (pr_slot p) (pr_want p) (pr_len p + Z.of_nat n) (got :: pr_chunks p) in
         let s2 := set_pread s1 (Some p') in
-        let e1 := match rest with
-                  | [] => release (upd_stream e k i (fun _ => s2)) f
-                  | _ => upd_stream e k i (fun _ => set_cache s2 (Some (mkFrame (fkind f) rest (fsize f))))
-                  end in
-        if pr_len p' =? pr_want p then Some (complete_read e1 k i p') else Some e1
-      else Some (release (upd_stream e k i (fun _ => s1)) f)      (* unexpected OPEN: dropped *)
+        let done := pr_len p' =? pr_want p in
+        match rest with
+        | [] => RStep s2 [f] done
+        | _ => RStep (set_cache s2 (Some (mkFrame (fkind f) rest (fsize f)))) [] done
+        end
+      else RStep s1 [f] false      (* unexpected OPEN: dropped *)
+  end.
+
+Definition read_iter (e : endpoint) (k : Z) (i : nat) (s : rstream) (p : pread) : option endpoint :=
+  match read_iter_s s p with
+  | RBlocked => None
+  | RStep s' rel done =>
+      let e := fold_left release rel (upd_stream e k i (fun _ => s')) in
+      Some (if done then match s_pread s' with Some p' => complete_read e k i p' | None => e end else e)
   end.
 
 (* one enabled transition of reusable stream (k, i), if any *)
@@ -415,9 +426,37 @@ Fixpoint queues_pass (e : endpoint) (qs : list (Z * Z)) : endpoint * bool :=
       end
   end.
 
+(* after Mux::run returned, the channels of all streams are disconnected: a pending read_exact
+   still takes the frames that were already queued, then sees "end of stream" *)
+Definition drain_step (e : endpoint) (k : Z) (i : nat) : option endpoint :=
+  match get_stream e k i with
+  | None => None
+  | Some s =>
+      match s_rph s, s_pread s with
+      | RApp, Some p => match read_iter e k i s p with
+                        | Some e' => Some e'
+                        | None => Some (complete_read e k i p)
+                        end
+      | _, _ => None
+      end
+  end.
+
+Fixpoint drain_pass (e : endpoint) (k : Z) (n : nat) (i : nat) : endpoint * bool :=
+  match n with
+  | O => (e, false)
+  | S n' =>
+      match drain_step e k i with
+      | Some e' => let '(e'', _) := drain_pass e' k n' (S i) in (e'', true)
+      | None => drain_pass e k n' (S i)
+      end
+  end.
+
 Definition ep_round (e : endpoint) : endpoint * bool :=
   match e_fail e with
-  | Some _ => (e, false)
+  | Some _ =>
+      let '(e2, p2) := drain_pass e 0 (length (e_acc e)) 0 in
+      let '(e3, p3) := drain_pass e2 1 (length (e_con e2)) 0 in
+      (e3, p2 || p3)
   | None =>
       let '(e1, p1) := disp_run 4 e in
       let '(e2, p2) := streams_pass e1 0 (length (e_acc e1)) 0 in
@@ -468,8 +507,9 @@ Inductive op :=
 
 Definition data_byte (tag k : Z) : Z := (tag * 37 + k + k / 256) mod 256.
 Definition filler_byte (pos : Z) : Z := (pos * 7 + 3) mod 256.
-Definition gen_bytes (f : Z -> Z) (from : Z) (n : Z) : list Z :=
-  map (fun j => f (from + Z.of_nat j)) (seq 0 (Z.to_nat n)).
+Fixpoint gen_bytes_from (f : Z -> Z) (from : Z) (n : nat) : list Z :=
+  match n with O => [] | S n' => f from :: gen_bytes_from f (from + 1) n' end.
+Definition gen_bytes (f : Z -> Z) (from : Z) (n : Z) : list Z := gen_bytes_from f from (Z.to_nat n).
 
 Definition skip (e : endpoint) (slot : Z) : endpoint := add_event e [slot; -1].
 
@@ -571,20 +611,29 @@ Definition transfer (s : sys) : sys :=
     let b' := match e_out a with [] => b | bs => set_d b (feed (e_d b) bs) end in
     mkSys (set_out a' [] (e_log a')) (set_out b' [] (e_log b')) false.
 
-Fixpoint settle (fuel : nat) (s : sys) : sys :=
-  match fuel with
-  | O => s
-  | S fuel' =>
-      let s1 := transfer s in
-      let '(a, pa) := if s_raw s1 then (sA s1, false) else ep_round (sA s1) in
-      let '(b, pb) := ep_round (sB s1) in
-      let moved := match e_out a, e_out b with [], [] => false | _, _ => true end in
-      if pa || pb || moved then settle fuel' (mkSys a b (s_raw s1)) else mkSys a b (s_raw s1)
-  end.
+Definition settle_round (s : sys) : sys * bool :=
+  let s1 := transfer s in
+  let '(a, pa) := if s_raw s1 then (sA s1, false) else ep_round (sA s1) in
+  let '(b, pb) := ep_round (sB s1) in
+  let moved := match e_out a, e_out b with [], [] => false | _, _ => true end in
+  (mkSys a b (s_raw s1), pa || pb || moved).
 
-Definition pending_bytes (e : endpoint) : Z := Z.of_nat (length (d_in (e_d e)) + length (e_out e)).
-Definition settle_fuel (s : sys) : nat :=
-  Z.to_nat (8 * (pending_bytes (sA s) + pending_bytes (sB s)) + 4096).
+(* runs [settle_round] until it reports that nothing is enabled, at most [p] times
+   (binary fuel: structural on [positive], no large unary numbers at run time) *)
+Fixpoint iter_until (p : positive) (s : sys) : sys * bool :=
+  match p with
+  | xH => settle_round s
+  | xO p' => let '(s1, c) := iter_until p' s in if c then iter_until p' s1 else (s1, false)
+  | xI p' => let '(s0, c0) := settle_round s in
+             if c0 then (let '(s1, c) := iter_until p' s0 in if c then iter_until p' s1 else (s1, false))
+             else (s0, false)
+  end.
+Definition settle (fuel : positive) (s : sys) : sys := fst (iter_until fuel s).
+
+Definition pending_bytes (e : endpoint) : Z :=
+  (d_received (e_d e) - d_consumed (e_d e)) + Z.of_nat (length (e_out e)).
+Definition settle_fuel (s : sys) : positive :=
+  Z.to_pos (8 * (pending_bytes (sA s) + pending_bytes (sB s)) + 4096).
 
 (* ------------------------------------------------------------------ observation *)
 Fixpoint insert_ev (ev : list Z) (l : list (list Z)) : list (list Z) :=
